@@ -35,7 +35,8 @@ ASSUMPTIONS = ["the replica applies each controller's documented per-step update
                "values: |a-b| <= 5e-5 + 5e-5|b| (two solver runs from different start points, each stopped at 1e-8 MVA)"]
 REACH_PROBES = ["recycled_power_flow_executed", "batch_read_path_taken", "only_v_results", "intermediate_dump",
                 "step_failed_then_next_step_checked", "second_run_on_same_net", "line_parameter_controlled",
-                "multi_index_controller", "tap_controller_in_loop", "subset_logged_in_non_table_order"]
+                "multi_index_controller", "tap_controller_in_loop", "subset_logged_in_non_table_order",
+                "dc_recycled_power_flow_executed"]
 
 CTRL_TARGETS = [("load", "p_mw"), ("load", "q_mvar"), ("load", "scaling"), ("sgen", "p_mw"), ("sgen", "q_mvar"),
                 ("sgen", "scaling"), ("storage", "p_mw"), ("gen", "p_mw"), ("gen", "vm_pu"), ("ext_grid", "vm_pu"),
@@ -127,7 +128,9 @@ def generate(rng, idx, tier):
            "run": "runpp" if batchy else rng.choice(["runpp", "runpp", "runpp", "rundcpp"]),
            "continue_on_divergence": rng.random() < 0.6,
            "fail_at": sorted(rng.sample(range(1, 14), rng.choice([0, 0, 0, 1, 2]))),
-           "dt": [rng.choice([0.1, 0.1, 0.1, 5.0]) for _ in range(12)], "kw": rng.choice([{}, {}, {"numba": False}])}
+           "dt": [rng.choice([0.1, 0.1, 0.1, 5.0]) for _ in range(12)], "kw": rng.choice([{}, {}, {}, {"numba": False}, {"trafo_loading": "power"}, {"trafo_loading": "power"},
+                             {"trafo_model": "pi"}, {"calculate_voltage_angles": False},
+                             {"enforce_q_lims": True}, {"voltage_depend_loads": False}])}
     ol.append(run)
     if rng.random() < 0.3:
         ol.append(ops.gen_toggle(rng, [("switch", "closed"), ("line", "in_service"), ("load", "in_service")]))
@@ -265,6 +268,7 @@ class RunWrapper:
         self.n = 0
         self.recycled = 0
         self.only_v = 0
+        self.dc_recycled = 0
         self.raised = []
 
     def __call__(self, net, **kw):
@@ -282,6 +286,10 @@ class RunWrapper:
             self.recycled += 1
             if kw.get("only_v_results"):
                 self.only_v += 1
+        elif self.__name__ == "rundcpp" and isinstance(kw.get("recycle"), dict) and isinstance(net.get("_ppc"), dict) \
+                and net["_ppc"].get("internal", {}).get("Bbus") is not None:
+            self.recycled += 1
+            self.dc_recycled += 1
         try:
             return self.fn(net, **kw)
         except Exception:
@@ -483,6 +491,8 @@ def _exec_run(net, op, ow_op, i, ctx, ctrl_desc, tmpdir, owm):
         ctx.probe("recycled_power_flow_executed", wrapper.recycled)
     if wrapper.only_v:
         ctx.probe("only_v_results", wrapper.only_v)
+    if wrapper.dc_recycled:
+        ctx.probe("dc_recycled_power_flow_executed", wrapper.dc_recycled)
     if any(dumps[:-1]) or (dumps and dumps[0] and len(dumps) > 1):
         ctx.probe("intermediate_dump")
     batch = any(isinstance(x, tuple) for x in ow.output_list)
